@@ -71,6 +71,8 @@ def jobs(tier, seed):
                 out.append({'mode': 'warm-zeros', 'l1': l1, 'l2': l2, 'engine': eng, 'seed': seed})
     # fixed, seed-independent witness of open finding F15 (mirror descent stalls after a warm start from a boundary optimum)
     out.append({'mode': 'warm-zeros', 'l1': 'm2', 'l2': 'm3', 'engine': 'MD', 'seed': 2, 'witness': 'F15'})
+    # fixed witness of open finding F18 (same stall without structural zeros: first call with a supplied total far below the measured mass)
+    out.append({'mode': 'warm', 'l1': 'm2', 'l2': 'm1', 'engine': 'MD', 'seed': 2, 'tmode': 'none', 'witness': 'F18'})
     return out
 
 
@@ -296,7 +298,7 @@ def run_job(job):
         acc.maximum('warm_excess_over_range:' + job['engine'], ratio, case)
         acc.outcome('warm:%s' % ('ok' if not fails else 'FAIL'))
         for k, m in fails:
-            acc.violate(case, {'kind': k, 'engine': job['engine'], 'zeros': job['mode'] == 'warm-zeros'}, m)
+            acc.violate(case, {'kind': k, 'engine': job['engine'], 'zeros': job['mode'] == 'warm-zeros', 'tmode': job.get('tmode', 'given')}, m)
         acc.sample(case)
         return acc
     n = len(ALPHABET)
